@@ -51,6 +51,9 @@ func buildDesc(inp M) (in []byte, data []byte) {
 				b.Write(wire(map[string]string{"g": pkcs7GUIDWire}, "g"))
 			} else if str(inp, "guid") == "zero" {
 				b.Write(make([]byte, 16)) // the all-zero GUID is a type GUID like any other
+			} else if str(inp, "guid") == "rsa2048" {
+				// EFI_CERT_TYPE_RSA2048_SHA256_GUID a7717414-c616-4977-9420-844712a735bf: the other certificate type the specification defines
+				b.Write([]byte{0x14, 0x74, 0x71, 0xa7, 0x16, 0xc6, 0x77, 0x49, 0x94, 0x20, 0x84, 0x47, 0x12, 0xa7, 0x35, 0xbf})
 			} else if str(inp, "guid") == "d1zero" {
 				b.Write([]byte{0, 0, 0, 0, 0x34, 0x12, 0x78, 0x56, 0x9a, 0xbc, 0xde, 0xf0, 0x12, 0x34, 0x56, 0x78}) // first field zero, the others not
 			} else if str(inp, "guid") == "ones" {
